@@ -742,6 +742,11 @@ pub fn gen_facts(r: &mut Prng, cfg: &GenCfg) -> FactSet {
                         format!("G{}{}", id % 1000, if cfg.names >= 2 && r.chance(1, 6) { "é" } else { "" })
                     }
                 }
+                _ if !out.is_empty() && r.chance(1, 6) => {
+                    // a disease whose name contains the complete name of another one ("X" / "X, type 2")
+                    let base: &Rec = &out[r.usize_below(out.len())];
+                    format!("{}, type {}", base.name, r.range(2, 4))
+                }
                 _ => {
                     let mut s = gen_name(r, cfg.names.min(2), cfg.text_safe, false);
                     if cfg.names >= 3 && r.chance(1, 8) {
